@@ -1,3 +1,6 @@
 package main
 
-func registerStreams(m map[string]Stream) {}
+func registerStreams(m map[string]Stream) {
+	m["ctrl-encode"] = ctrlEncodeStream{}
+	m["behera-ctor"] = beheraStream{}
+}
